@@ -105,7 +105,7 @@ def run_for(prop: str, repo: str, skip: bool = False, jobs: int = 16) -> dict:
     # seeded defects contributed by independent agents
     for meta_path in sorted(glob.glob(os.path.join(VERIF, "seeded", "*", "meta.json"))):
         meta = json.load(open(meta_path))
-        if meta.get("property") != prop or not meta.get("expected_detected", False):
+        if (meta.get("detected_under_property") or meta.get("property")) != prop or not meta.get("expected_detected", False):
             continue
         ov = _seeded_overrides(repo, os.path.join(os.path.dirname(meta_path), "patch.diff"))
         name = "seeded/" + os.path.basename(os.path.dirname(meta_path))
